@@ -12,7 +12,7 @@ def subarray64_jobs(tier, prop):
     inst = [(2, (3, P31 + 64, 1), 1, None), (2, (P31 + 5, 7, 1), 4, None), (1, ((1 << 32) + 10, 1, 1), 2, None), (3, (3, 4, P31 + 1), 1, None),
             (2, (100, 200, 1), 4, 'small'), (3, (P31 + 5, 2, 2), 8, 'overflow')]
     if tier != 'quick':
-        inst += [(3, (2, P31 + 3, 5), 2, None), (2, ((1 << 40), (1 << 20), 1), 1, None)]
+        inst += [(3, (3, P31 + 3, 5), 2, None), (2, ((1 << 40), (1 << 20), 1), 1, None)]
     js = []
     for nd, sz, el, extra in inst:
         can = ['small_path'] if extra == 'small' else (['large_path_with_offset_in_the_slowest_dimension'] if sz[0] > 1 else []) + \
